@@ -27,6 +27,10 @@ type C02Scenario struct {
 	Spans       []uint64 `json:"spans"`
 	Muts        []C02Mut `json:"muts"`
 	AcceptAll   bool     `json:"accept_all,omitempty"` // every header's type-level Verify accepts anything
+	// PanicAt > 0: the type-level Verify that judges element PanicAt-1 (the trusted header's for element 0, else the
+	// previous element's) panics. VerifyRange may let the panic through or return the prefix before it with an
+	// error; it must not count the element as verified
+	PanicAt int `json:"panic_at,omitempty"`
 }
 
 var c02Kinds = []string{"gap", "dup", "swap", "nil", vh.AdvForged, vh.AdvForked, vh.AdvWrongChain, vh.AdvTimeRegress, vh.AdvFuture, vh.AdvBadValidate, "below", "below_late", "future_near", "future_edge", "time_back_subsecond"}
@@ -49,6 +53,9 @@ func genC02(t *rapid.T) C02Scenario {
 		s.Len = rapid.IntRange(50, 200).Draw(t, "lenbig")
 	default:
 		s.Len = rapid.IntRange(2, 20).Draw(t, "len")
+	}
+	if rapid.IntRange(0, 7).Draw(t, "panics") == 0 {
+		s.PanicAt = 1 + rapid.IntRange(0, 12).Draw(t, "panicat")
 	}
 	nm := rapid.IntRange(0, 3).Draw(t, "nmut")
 	for i := 0; i < nm; i++ {
@@ -158,10 +165,29 @@ func runC02(t *testing.T, s C02Scenario) (res Result) {
 			}
 		}
 
+		if p := s.PanicAt - 1; p >= 0 && p < len(in) && in[p] != nil {
+			boom := func(*vh.Header) error { panic("c02: the header type's Verify crashes on this header") }
+			if p == 0 {
+				if tr != nil {
+					tr = tr.Clone().Seal()
+					tr.VerifyFn = boom
+				}
+			} else if in[p-1] != nil {
+				c := in[p-1].Clone().Seal()
+				c.VerifyFn = boom
+				in[p-1] = c
+			}
+		}
+
 		// reference loop written from the statement; header.Verify is the step predicate
 		k := 0
+		refPanicked := false
 		func() {
-			defer func() { recover() }() // a panic in the reference run is judged on the real call below
+			defer func() {
+				if recover() != nil {
+					refPanicked = true
+				}
+			}() // a panic in the reference run is judged on the real call below
 			prev := tr
 			for i, x := range in {
 				// the step predicate is the reference model of C01 (mandatory conditions, then the type's own
@@ -182,6 +208,12 @@ func runC02(t *testing.T, s C02Scenario) (res Result) {
 		func() {
 			defer func() {
 				if r := recover(); r != nil {
+					if refPanicked {
+						res.label("type_verify_panic_let_through")
+						res.NonTrivial = true
+						got, err = in[:k], fmt.Errorf("panic: %v", r)
+						return
+					}
 					res.failf("VerifyRange panicked: %v", r)
 				}
 			}()
